@@ -387,8 +387,11 @@ def worker_dups(rec, shard, nshards, setups, thorough, seed):
         for ci in core.shard_order(len(cases), shard, nshards, seed):
             G, variants, sibs = cases[ci]
             base_items = [G, G] + sibs
-            for nested in (False, True):
+            # "double": the copies sit in a group that is the only member of another group (redundant parentheses)
+            for nested in (False, True, "double"):
                 def wrap(items):
+                    if nested == "double":
+                        return [[items]]
                     return [Leaf(st.plain3[3]), items] if nested else items
                 base_text = render(wrap(base_items))
                 try:
